@@ -65,7 +65,10 @@ def run(ck, an, tier):
     for s in init_ifs[:1]:
         ck.exempt("EFFECT:S5.query-writes-nothing", "if self._last_accrual is None: self._last_accrual = now",
                   "first-use initialisation of the accrual clock; pinned by test_accrued_interest_sets_last_update_when_run_for_the_first_time; changes nothing once any accrual has happened")
-        ok = len(s.body) == 1 and isinstance(s.body[0], ast.Assign) and ast.unparse(s.body[0].targets[0]) == last_key and ast.unparse(s.body[0].value) == now_p
+        # every statement of the branch stores `now` (by value id): into the clock, and possibly into a local that mirrors it
+        def _sets_now(b):
+            return isinstance(b, ast.Assign) and len(b.targets) == 1 and (ast.unparse(b.targets[0]) == last_key or isinstance(b.targets[0], ast.Name)) and fa.sym.canon(b.value, fa.node_of(b).id) in (now_p, last_key)      # `now`, or the clock just set to it read back
+        ok = 1 <= len(s.body) <= 2 and all(_sets_now(b) for b in s.body) and any(ast.unparse(b.targets[0]) == last_key for b in s.body)
         ck.check(ok, "GUARD", "S5.first-use-init-shape", subj, fa.loc(s), "the exempt first-use branch only sets the clock to now", f"first-use branch does: {[ast.unparse(b) for b in s.body]}",
                  construct=stmt_text(s))
     # every direct write is under `accrue` (syntactic), except the exempt init
